@@ -195,6 +195,20 @@ def clock_scenarios(R, lib, ob, init_vals, inv, g, sy, sn):
     from .ir import E
 
     def fresh(backup=None, reference=None):
+        # built by the class's own constructor where it has one taking the two clocks (member initialisers may stand in the class
+        # or in the constructor's initialiser list); else from the initialisers written at the members
+        ctors_ = [c_ for c_ in lib.fns(SC + '::SystemClock') if len(c_.params) == 2]
+        if ctors_:
+            o_ = AObj({n_: None for n_, _t, _x in lib.fields(SC)}, oid='clock', cls=SC, ftypes=ftypes)
+            o_.ptrs = frozenset(n_ for n_, t_, _x in lib.fields(SC) if t_ and '*' in t_)
+            args_ = [reference if 'ref' in (pn_ or '').lower() else backup if 'back' in (pn_ or '').lower() else None for pn_, _pt in ctors_[0].params]
+            if sorted(map(id, args_)) == sorted(map(id, [reference, backup])) or reference is backup:
+                try:
+                    if AEval(module=mod, intrinsics=intr, typed=True, max_steps=20000)._construct(o_, SC, args_, 0, sy.loc) and \
+                            all(v_ is not None for n_, v_ in o_.attrs.items() if n_ in ftypes):
+                        return o_
+                except AnalysisError:
+                    pass
         attrs = {'mReferenceClock': reference, 'mBackupClock': backup}
         for n, t, node in lib.fields(SC):
             if n not in attrs:
